@@ -60,7 +60,7 @@ def hexDigit (n : Nat) : Char :=
 /-- spec of `to_hex_string`: two digits for a group longer than 4 bits, one digit otherwise -/
 def toHex (l : List Bool) : List Char :=
   (iter8 l).flatMap fun (v, n) =>
-    if n > 4 then [hexDigit (v / 16 % 16), hexDigit (v % 16)] else [hexDigit (v % 16)]
+    if n > 4 then [hexDigit (v / 16), hexDigit (v % 16)] else [hexDigit (v % 16)]
 
 /-- spec of `to_bytes_with_padding`: value of each group (a partial last group is right-aligned) -/
 def toBytesPad (l : List Bool) : List Nat := (chunks8 l).map beVal
